@@ -225,7 +225,7 @@ func c18Program(r *rand.Rand, d int, fault string, useModule bool, handledFirst 
 }
 
 func checkC18(c *Ctx) {
-	c.rule = "fixed location cases (27 hand-written programs: loop / branch conditions on later passes, hoisted definitions, failing imports and faults down a chain of modules, missing 输入, faults at call entry, lines after empty annotations, leftover indented lines) with every expected (module, line) written down; runtime faults: call chains main -> 层1 -> … -> 层d (d = 0..4; levels >= 2 optionally in an imported module, level 1 optionally a type method) whose innermost body raises one of 11 fault kinds at a generator-known statement (plain, inside 如果, inside 遍历), with calls that returned earlier, an earlier handled exception, and multi-line literals / comments / bracket continuations / wide characters before the fault; rendered with LF, CR, CRLF or LFCR line ends, TAB or 4-space indents, blank lines and comments. The DisplayError text is parsed into (module, line, quoted text) entries and compared with the reference evaluator's call stack at the fault mapped to physical lines by the renderer: same entries in either printing order, no entry for a returned call, quoted text = that physical line. Syntax faults: an unknown character / stray closing bracket planted at a known offset of a valid program: line, quoted line and caret column (display width of the text before the character; ASCII 1, CJK/full-width 2). distinct_nontrivial = distinct (fault kind, depth, module/method/handled flags, line-end style, fault line)"
+	c.rule = "fixed location cases (35 hand-written programs: loop / branch conditions on later passes, hoisted definitions, failing imports and faults down a chain of modules, missing 输入, faults at call entry, lines after empty annotations, leftover indented lines) with every expected (module, line) written down; runtime faults: call chains main -> 层1 -> … -> 层d (d = 0..4; levels >= 2 optionally in an imported module, level 1 optionally a type method) whose innermost body raises one of 11 fault kinds at a generator-known statement (plain, inside 如果, inside 遍历), with calls that returned earlier, an earlier handled exception, and multi-line literals / comments / bracket continuations / wide characters before the fault; rendered with LF, CR, CRLF or LFCR line ends, TAB or 4-space indents, blank lines and comments. The DisplayError text is parsed into (module, line, quoted text) entries and compared with the reference evaluator's call stack at the fault mapped to physical lines by the renderer: same entries in either printing order, no entry for a returned call, quoted text = that physical line. Syntax faults: an unknown character / stray closing bracket planted at a known offset of a valid program: line, quoted line and caret column (display width of the text before the character; ASCII 1, CJK/full-width 2). distinct_nontrivial = distinct (fault kind, depth, module/method/handled flags, line-end style, fault line)"
 	c.assumptions = []string{"fault statements occupy one physical line", "for a fault inside a handler block only containment is judged (every entry is an active frame, outermost call site and faulting statement present); unterminated literals and EOF positions are not judged", "frames that have not started a statement yet (line unknown) are compared by module only"}
 	rng := c.Rand("c18")
 	type rcase struct {
@@ -453,6 +453,14 @@ func c18Fixed(c *Ctx) {
 		{name: "call-entry/arity", files: map[string]string{"main.zn": "注：a\n注：b\n如何算？\n\t输入数\n\t输出 数\n\n令子 = 1\n（算：1、2）\n"}, accept: [][]fr{{{M, 8}}, {{M, 8}, {M, 3}}, {{M, 8}, {M, 4}}}},
 		{name: "call-entry/arity-in-module", files: map[string]string{"main.zn": "导入“甲”\n令子 = 1\n令丑 = 1\n（算：1、2）\n", "甲.zn": "注：a\n注：b\n如何算？\n\t输入数\n\t输出 数\n"}, accept: [][]fr{{{M, 4}}, {{M, 4}, {"甲", 3}}, {{M, 4}, {"甲", 4}}}},
 		{name: "call-entry/constructor-arity", files: map[string]string{"main.zn": "注：a\n定义箱：\n\t其值 = 0\n如何新建箱？\n\t输入值\n\t其值 = 值\n\n令物 = （新建箱：1、2）\n"}, accept: [][]fr{{{M, 8}}, {{M, 8}, {M, 4}}, {{M, 8}, {M, 5}}}},
+		{name: "method-entry/missing-object-method", files: map[string]string{"main.zn": "令甲 = 1\n定义狗：\n\t其名 = “a”\n\t如何叫？\n\t\t输出 1\n\n令D = （新建狗）\n令乙 = 2\n令丙 = 3\n以D（不存在）\n"}, accept: [][]fr{{{M, 10}}}},
+		{name: "method-entry/missing-method-of-imported-type", files: map[string]string{"main.zn": "导入“甲”\n令乙 = 2\n令D = （新建狗）\n以D（不存在）\n", "甲.zn": "注：a\n注：b\n定义狗：\n\t其名 = “a”\n"}, accept: [][]fr{{{M, 4}}}},
+		{name: "method-entry/object-method-arity", files: map[string]string{"main.zn": "注：a\n定义狗：\n\t其名 = “a”\n\t如何叫？\n\t\t输入甲\n\t\t输出 1\n令D = （新建狗）\n以D（叫：1、2）\n"}, accept: [][]fr{{{M, 8}}, {{M, 8}, {M, 4}}, {{M, 8}, {M, 5}}}},
+		{name: "method-entry/object-method-fault", files: map[string]string{"main.zn": "注：a\n定义狗：\n\t其名 = “a”\n\t如何叫？\n\t\t令乙 = 1\n\t\t输出 1 / 0\n令D = （新建狗）\n以D（叫）\n"}, accept: [][]fr{{{M, 8}, {M, 6}}}},
+		{name: "method-entry/builtin-method-missing", files: map[string]string{"main.zn": "注：a\n令甲 = 【1】\n以甲（不存在）\n"}, accept: [][]fr{{{M, 3}}}},
+		{name: "native/library-function-fails", files: map[string]string{"main.zn": "导入《@JSON》\n令乙 = 2\n令丙 = （解析JSON：“{”）\n"}, accept: [][]fr{{{M, 3}}}},
+		{name: "native/library-function-alias-fails", files: map[string]string{"main.zn": "导入《@JSON》\n令乙 = 2\n令函 = 解析JSON\n令丙 = （函：“{”）\n"}, accept: [][]fr{{{M, 4}}}},
+		{name: "native/library-function-fails-in-method", files: map[string]string{"main.zn": "导入《@JSON》\n如何读？\n\t输入文\n\t输出（解析JSON：文）\n令乙 = 2\n令丙 = （读：“{”）\n"}, accept: [][]fr{{{M, 6}, {M, 4}}}},
 		{name: "comment/empty-annotation", files: map[string]string{"main.zn": "注：\n令甲 = 1\n令乙 = 1 / 0\n"}, accept: [][]fr{{{M, 3}}}},
 		{name: "comment/empty-numbered-annotation", files: map[string]string{"main.zn": "令子 = 1\n注12：\n令甲 = 1\n令乙 = 甲 / 0\n"}, accept: [][]fr{{{M, 4}}}},
 		{name: "comment/empty-annotation-cr", files: map[string]string{"main.zn": "注：\r令甲 = 1\r令乙 = 1 / 0\r"}, accept: [][]fr{{{M, 3}}}},
